@@ -4,7 +4,7 @@
 set -u
 VS="${1:-7}"; shift || true
 cd "$(dirname "$0")/.."
-S=/tmp/zkseed
+S="${ZKSEED_DIR:-/tmp/zkseed}"
 mkdir -p $S
 DIRS="$@"; [ -z "$DIRS" ] && DIRS=$(ls seeded)
 for d in $DIRS; do
